@@ -34,7 +34,7 @@ ASSUMPTIONS = [
 ]
 PROBES = ["completed_by_software_rstack", "nonsoftware_rstack_during_reset", "error_during_reset", "timeout_exact", "tie_at_deadline",
           "rstack_before_request", "rstack_twice", "reply_duplicated_in_one_read", "reset_with_queued_send", "late_rstack_after_timeout", "loss_while_reset_pending", "loss_while_startup_pending",
-          "eof_while_pending", "close_while_pending", "data_frame_unacknowledged_at_loss", "transport_closed_underneath", "retry_after_timeout", "joined_existing_reset", "counters_nonzero_before", "sched.batch", "sched.reorder"]
+          "eof_while_pending", "close_while_pending", "data_frame_unacknowledged_at_loss", "both_waiters_pending_at_loss", "transport_closed_underneath", "retry_after_timeout", "joined_existing_reset", "counters_nonzero_before", "sched.batch", "sched.reorder"]
 
 SW = R.RESET_SOFTWARE
 ARRIVALS = ("before", "now", "mid", "deadline", "after", "twice", "never", "double")
@@ -72,6 +72,9 @@ def plan(tier):
                     sweeps.append(("cell", {"waiter": waiter, "kind": "rstack", "code": SW, "arrival": arrival, "tx": cnt[0], "rx": cnt[1], "loss": loss, "sched": False}))
                     # the same with a host DATA frame still unacknowledged when the connection goes away
                     sweeps.append(("cell", {"waiter": waiter, "kind": "rstack", "code": SW, "arrival": arrival, "tx": cnt[0], "rx": cnt[1], "loss": loss, "sched": False, "inflight": True}))
+    for loss in ("after_rst", "eof_after_rst", "close_after_rst", "tclose_after_rst"):
+        for order in ("startup-first", "reset-first"):
+            sweeps.append(("both", {"loss": loss, "order": order, "sched": False}))
     for seqs in (("never", "now"), ("never", "never"), ("after", "now"), ("now", "now")):
         sweeps.append(("chain", {"arrivals": list(seqs), "sched": False}))
     sweeps.append(("join", {"sched": False}))
@@ -231,6 +234,8 @@ def run(scenario, params, tape, detail=False):
         return run_cell(params, tape, detail)
     if scenario == "queued":
         return run_queued(params, tape, detail)
+    if scenario == "both":
+        return run_both(params, tape, detail)
     return run_chain(scenario, params, tape, detail)
 
 
@@ -458,6 +463,62 @@ def run_queued(params, tape, detail=False):
             probes["queued_send_not_written"] = 1
     desc = ("queued", tx, params.get("together", True), st.get("s"))
     return _finish(cell, viol, probes, desc, True, detail, {"cell": tag, "sends_completed": st.get("s")})
+
+
+def run_both(params, tape, detail=False):
+    """A start-up-reset waiter AND a reset() request are pending on one Gateway when the connection goes away: EVERY pending waiter is released."""
+    loss, order = params["loss"], params["order"]
+    cell = Cell(tape, params.get("sched", True))
+    _wrap_writes(cell)
+    loop, rig, app = cell.loop, cell.rig, cell.app
+    viol, probes = [], {"both_waiters_pending_at_loss": 1}
+    exc = ConnectionResetError("simulated loss")
+    out = {}
+
+    async def waiter(name, coro):
+        try:
+            r = await coro
+            out[name] = ("ok", r, loop.time())
+        except asyncio.CancelledError:
+            out[name] = ("cancelled", None, loop.time())
+            raise
+        except BaseException as e:  # noqa: BLE001
+            out[name] = ("raised", e, loop.time())
+
+    st = {}
+
+    async def main():
+        await cell.prior(2, 3)
+        t0 = loop.time() + 1.0
+        st["loss_at"] = t0 + 0.5
+        await asyncio.sleep(t0 - loop.time())
+        first, second = ("startup", "reset") if order == "startup-first" else ("reset", "startup")
+        mk = {"startup": cell.gw.wait_for_startup_reset, "reset": cell.gw.reset}
+        ta = loop.create_task(waiter(first, mk[first]()))
+        await asyncio.sleep(0.1)
+        tb = loop.create_task(waiter(second, mk[second]()))
+        fn = {"after_rst": lambda: rig.transport.inject_lost(exc), "eof_after_rst": rig.transport.inject_eof, "close_after_rst": cell.gw.close,
+              "tclose_after_rst": rig.transport.close}[loss]
+        loop.external(st["loss_at"], fn, group="n2h")
+        await asyncio.sleep(8.0)
+        for t_ in (ta, tb):
+            if not t_.done():
+                t_.cancel()
+        await asyncio.sleep(0.01)
+
+    outcome, val = rig.run(main())
+    tag = f"both waiters pending ({order}), loss={loss}"
+    if outcome != "done":
+        viol.append(("C11.release", "sim-" + outcome, f"{tag}: simulation ended with {outcome}: {val!r}"))
+    else:
+        for name in ("startup", "reset"):
+            o = out.get(name)
+            good = o is not None and o[0] == "raised" and isinstance(o[1], ConnectionError) and abs(o[2] - st["loss_at"]) <= 0.01 and (loss != "after_rst" or o[1] is exc)
+            if not good:
+                viol.append(("C11.release", "not-released-both", f"{tag}: connection lost at t={st['loss_at']:.4f}; the {name} waiter ended {o and o[0]} {o and o[1]!r}"
+                             f"{(' at t=%.4f' % o[2]) if o else ''} (the other one: {out.get('reset' if name == 'startup' else 'startup')})"))
+    desc = ("both", loss, order, [(k, v[0], type(v[1]).__name__) for k, v in sorted(out.items())])
+    return _finish(cell, viol, probes, desc, True, detail, {"cell": tag, "outcomes": {k: (v[0], repr(v[1])) for k, v in out.items()}})
 
 
 def run_chain(scenario, params, tape, detail=False):
